@@ -15,6 +15,10 @@ NOT_DECIDED = ('Bit-exact reconstruction values, equality of summaries between t
 def run(ctx, sess):
     ctx.explanation = EXPL
     ctx.not_decided = NOT_DECIDED
+    ctx.rule('C15.8', 'the summary used to reconstruct an omitted block belongs to the requested signal: the cached level-1 index/summary is reused only when keyed by the signal id and the sample range (shared with C01.a)')
+    from .common import relay
+    from . import c01 as _src_c01
+    relay(ctx, sess, _src_c01.run, {'C01.a': 'C15.8'})
     P = sess.prog('default')
     ctx.rule('C15.1', 'the first block of a signal is always stored: the definition of omit_data that reaches the store/omit branch is masked with data_head.offset != 0')
     ctx.rule('C15.7', 'the reported length does not depend on omission: a block is omitted only when it is full (omit_data is masked with entry_count >= data_length); the count of a partial block is stored only in the block itself')
